@@ -343,6 +343,10 @@ pub fn make_knobs(profile: Profile, rng: &mut Rng, thorough: bool) -> Knobs {
             k.n_lps = 3;
             k.n_traders = 1;
         }
+        Profile::Lifecycle => {
+            // both full-range-only spacings: exactly the threshold and above it
+            k.spacing_choices = vec![1, 8, 64, 128, 32768, 32896];
+        }
         Profile::TwoHop => {
             k.adaptive_pct = *rng.pick(&[0u64, 0, 40, 100]);
             k.has_rewards = rng.chance(1, 2);
